@@ -20,7 +20,7 @@ CLAIMS = {
  "C05": ("Bounded symbolic verification of the timeout path on the FULL composition: a stalled runtime (with and without an extension, and twice in a row) yields ErrInvokeTimeout with no body, only after every process of the generation was terminated, and the next invocation runs on freshly started processes; no deadlock at quiescence (the reset path always completes) for every schedule within the delay bound; plus the stub-sandbox harness for the Server.Invoke timeout branch.",
          "Trusted as C01; logical time only (the wall-clock bound 'timeout + allowance' is outside); stalls before the first next / during registration are not instantiated.",
          TECH + "; FULL-stack harness, timers as schedulable events at quiescence"),
- "C06": ("Bounded symbolic verification of failure handling on the FULL composition: runtime exit after receiving the invocation gives the failure outcome with a JSON body naming Runtime.ExitError, an already delivered response is what the caller keeps, the generation is torn down before the answer and the next invocation recovers (also when it then stalls), for every schedule within the delay bound.",
+ "C06": ("Bounded symbolic verification of failure handling on the FULL composition: runtime exit after receiving the invocation gives the failure outcome with a JSON body naming Runtime.ExitError, an already delivered response is what the caller keeps, the generation is torn down before the answer and the next invocation recovers (also when it then stalls), for every schedule within the delay bound. Fault-point harnesses: a runtime fault at each of 5 protocol steps (during init, own init/error report, after receiving the invocation, after the response, idle in next) and an extension fault at each of 5 steps (before/after register, after first event, after init/error or exit/error report), each with exit 0 / non-zero / signal, with 0-2 extensions and with the function finished or still running: failure status and never the timeout, body = delivered response / own init-error payload / nothing for an unreported init fault / JSON naming Runtime.ExitError or Extension.Crash, and recovery within two invocations.",
          "Trusted as C01. Extension crashes, init/exit error reports and signal-vs-code are not yet instantiated in the check (partial claim).",
          TECH + "; FULL-stack harness"),
  "C07": ("Bounded symbolic verification that no client behaviour wedges or crashes the emulator: on the FULL composition the first-generation runtime executes EVERY script of L calls over the whole Runtime API alphabet incl. misuse {next, response(in-flight id), response(bogus id), error, init/error, exit, stall, restore/next, restore/error}, the first-generation extension EVERY script over {register, next, init/error, exit/error, exit, stall}, optionally followed by a second faulty generation (stall / exit), then healthy generations, over 3-4 invocations and every schedule within the delay bound: no panic (log.Panic included), no deadlock at quiescence, every invocation returns within timeout + reset allowance of logical time, every body is a payload posted during that invocation or platform-made, and once the faulty generations are gone at most one further invocation fails; plus expiry racing with the lazy initialisation.",
